@@ -18,6 +18,7 @@ type propInfo struct {
 	accepted []string // every accepted value, shortest first
 	ntok     []int    // number of tokens of accepted[i]
 	acc2     []string // accepted two-token values
+	acc2last []string // last token of acc2[i]
 	relSet   map[string]bool
 	inAlpha  map[string]bool
 	full     bool
@@ -110,6 +111,7 @@ func (c *check) pair(ctx *engine.Ctx, pi *propInfo, a, b string) bool {
 	v := a + " " + b
 	if c.accepts(ctx, "a", pi.name, v) {
 		pi.acc2 = append(pi.acc2, v)
+		pi.acc2last = append(pi.acc2last, b)
 		pi.relSet[a], pi.relSet[b] = true, true
 		return true
 	}
@@ -135,7 +137,10 @@ func (c *check) enumerate(ctx *engine.Ctx, prop string) *propInfo {
 			found := false
 			for _, b := range old {
 				pi.tried += 2
-				if c.accepts(ctx, "a", prop, k+" "+b) || c.accepts(ctx, "a", prop, b+" "+k) {
+				// a keyword is discovered when it is accepted in company where the nonsense
+				// identifier is not (otherwise the position simply takes any identifier)
+				if (c.accepts(ctx, "a", prop, k+" "+b) && !c.accepts(ctx, "a", prop, "zzq "+b)) ||
+					(c.accepts(ctx, "a", prop, b+" "+k) && !c.accepts(ctx, "a", prop, b+" zzq")) {
 					found = true
 					break
 				}
@@ -374,8 +379,13 @@ func (c *check) variantsOf(prop, value, baseCanon string, full bool, probe func(
 
 	// --- comments and white space ---
 	for i := 0; i <= len(ps) && full; i++ {
+		// CSS Syntax 3 §4.3.6: "url(" followed by anything but white space and a quote starts
+		// an unquoted url token, so a comment right there is not a comment
+		afterURL := i > 0 && ps[i-1].kind == kFunc && strings.EqualFold(ps[i-1].text, "url(")
 		q := joinPieces(ps[:i]) + "/**/" + joinPieces(ps[i:])
-		add(prop+":"+q, "whitespace-comments", true, append([]string{"ws:comment"}, posClass(ps, i)...)...)
+		if !afterURL {
+			add(prop+":"+q, "whitespace-comments", true, append([]string{"ws:comment"}, posClass(ps, i)...)...)
+		}
 		wsAdjacent := (i > 0 && ps[i-1].kind == kWS) || (i < len(ps) && ps[i].kind == kWS)
 		if !wsAdjacent {
 			q = joinPieces(ps[:i]) + "\n" + joinPieces(ps[i:])
@@ -396,7 +406,9 @@ func (c *check) variantsOf(prop, value, baseCanon string, full bool, probe func(
 		// everything at once
 		var sb, sb2 strings.Builder
 		for i, p := range ps {
-			sb.WriteString("/**/")
+			if !(i > 0 && ps[i-1].kind == kFunc && strings.EqualFold(ps[i-1].text, "url(")) {
+				sb.WriteString("/**/")
+			}
 			wsAdjacent := (i > 0 && ps[i-1].kind == kWS) || p.kind == kWS
 			if p.kind == kWS {
 				sb2.WriteString(" \n\t ")
@@ -521,7 +533,8 @@ func (c *check) runA(u int64, ctx *engine.Ctx) {
 				}
 			}
 		}
-	}
+	} // the long lists are not needed any more (part c and the shorthands only use the short ones)
+	pi.accepted, pi.ntok, pi.full = nil, nil, false
 }
 
 func oneLine(s string) string {
